@@ -12,12 +12,16 @@ package perunio
 // 1 <= n <= len(p) per call). The content clauses apply when the run models reader contents (streaming()).
 //@ func (*ByteSlice).Decode
 //@   requires r != nil
-//@   modifies (*b)[*], ghost("rpos")
+//@   modifies (*b)[*], ghost("rpos"), ghost("rfail")
 //@   ensures result == nil ==> rpos(r) == old(rpos(r)) + len(*b)
 //@   ensures streaming() && result == nil ==> forall i int :: 0 <= i && i < len(*b) ==> (*b)[i] == streamAt(r, old(rpos(r)) + i)
+//@   ensures streaming() && result != nil ==> rfail(r)
+//@   ensures streaming() && old(rfail(r)) ==> rfail(r)
 //@   loop 1
-//@     modifies (*b)[*], ghost("rpos")
+//@     modifies (*b)[*], ghost("rpos"), ghost("rfail")
 //@     invariant 0 <= n && n <= len(*b) && rpos(r) == old(rpos(r)) + n
+//@     invariant streaming() && err != nil ==> rfail(r)
+//@     invariant streaming() && old(rfail(r)) ==> rfail(r)
 //@     invariant streaming() ==> forall i int :: 0 <= i && i < n ==> (*b)[i] == streamAt(r, old(rpos(r)) + i)
 
 // BigInt.Decode: length byte, then exactly that many bytes; lengths above MaxBigIntLength are rejected.
@@ -43,3 +47,146 @@ package perunio
 //@   trusted
 //@   ensures (result0 && result1 == nil) <==> binEq(a, b)
 //@   ensures result1 != nil ==> !result0
+
+// ---------------------------------------------------------------------------
+// Round trip (C14). wpos(w): bytes written to w so far; wroteAt(w, i): i-th byte of w's output; rfail(r): a read on r failed.
+// linked(w, r, p, q, n): the n bytes of r's stream from position q on are the n bytes of w's output from position p on.
+// Every lemma function (zz_verif_roundtrip.go) encodes, then decodes: when the reader delivers what the writer got, decoding
+// fails only if the reader fails, returns the encoded value and consumes exactly the bytes that were written.
+// ---------------------------------------------------------------------------
+//@ pred linked(w io.Writer, r io.Reader, p int, q int, n int) = forall i int :: 0 <= i && i < n ==> streamAt(r, q + i) == wroteAt(w, p + i)
+
+//@ func verifRoundTripBool
+//@   requires w != nil && r != nil && streaming()
+//@   modifies *
+//@   inlines Encode
+//@   ensures encErr == nil && linked(w, r, old(wpos(w)), old(rpos(r)), wpos(w) - old(wpos(w))) && !rfail(r) ==> decErr == nil
+//@   ensures encErr == nil && decErr == nil && linked(w, r, old(wpos(w)), old(rpos(r)), wpos(w) - old(wpos(w))) ==>
+//@     y == x && rpos(r) - old(rpos(r)) == wpos(w) - old(wpos(w))
+
+//@ func verifRoundTripInt8
+//@   requires w != nil && r != nil && streaming()
+//@   modifies *
+//@   inlines Encode
+//@   ensures encErr == nil && linked(w, r, old(wpos(w)), old(rpos(r)), wpos(w) - old(wpos(w))) && !rfail(r) ==> decErr == nil
+//@   ensures encErr == nil && decErr == nil && linked(w, r, old(wpos(w)), old(rpos(r)), wpos(w) - old(wpos(w))) ==>
+//@     y == x && rpos(r) - old(rpos(r)) == wpos(w) - old(wpos(w))
+
+//@ func verifRoundTripUint8
+//@   requires w != nil && r != nil && streaming()
+//@   modifies *
+//@   inlines Encode
+//@   ensures encErr == nil && linked(w, r, old(wpos(w)), old(rpos(r)), wpos(w) - old(wpos(w))) && !rfail(r) ==> decErr == nil
+//@   ensures encErr == nil && decErr == nil && linked(w, r, old(wpos(w)), old(rpos(r)), wpos(w) - old(wpos(w))) ==>
+//@     y == x && rpos(r) - old(rpos(r)) == wpos(w) - old(wpos(w))
+
+//@ func verifRoundTripInt16
+//@   requires w != nil && r != nil && streaming()
+//@   modifies *
+//@   inlines Encode
+//@   ensures encErr == nil && linked(w, r, old(wpos(w)), old(rpos(r)), wpos(w) - old(wpos(w))) && !rfail(r) ==> decErr == nil
+//@   ensures encErr == nil && decErr == nil && linked(w, r, old(wpos(w)), old(rpos(r)), wpos(w) - old(wpos(w))) ==>
+//@     y == x && rpos(r) - old(rpos(r)) == wpos(w) - old(wpos(w))
+
+//@ func verifRoundTripUint16
+//@   requires w != nil && r != nil && streaming()
+//@   modifies *
+//@   inlines Encode
+//@   ensures encErr == nil && linked(w, r, old(wpos(w)), old(rpos(r)), wpos(w) - old(wpos(w))) && !rfail(r) ==> decErr == nil
+//@   ensures encErr == nil && decErr == nil && linked(w, r, old(wpos(w)), old(rpos(r)), wpos(w) - old(wpos(w))) ==>
+//@     y == x && rpos(r) - old(rpos(r)) == wpos(w) - old(wpos(w))
+
+//@ func verifRoundTripInt32
+//@   requires w != nil && r != nil && streaming()
+//@   modifies *
+//@   inlines Encode
+//@   ensures encErr == nil && linked(w, r, old(wpos(w)), old(rpos(r)), wpos(w) - old(wpos(w))) && !rfail(r) ==> decErr == nil
+//@   ensures encErr == nil && decErr == nil && linked(w, r, old(wpos(w)), old(rpos(r)), wpos(w) - old(wpos(w))) ==>
+//@     y == x && rpos(r) - old(rpos(r)) == wpos(w) - old(wpos(w))
+
+//@ func verifRoundTripUint32
+//@   requires w != nil && r != nil && streaming()
+//@   modifies *
+//@   inlines Encode
+//@   ensures encErr == nil && linked(w, r, old(wpos(w)), old(rpos(r)), wpos(w) - old(wpos(w))) && !rfail(r) ==> decErr == nil
+//@   ensures encErr == nil && decErr == nil && linked(w, r, old(wpos(w)), old(rpos(r)), wpos(w) - old(wpos(w))) ==>
+//@     y == x && rpos(r) - old(rpos(r)) == wpos(w) - old(wpos(w))
+
+//@ func verifRoundTripInt64
+//@   requires w != nil && r != nil && streaming()
+//@   modifies *
+//@   inlines Encode
+//@   ensures encErr == nil && linked(w, r, old(wpos(w)), old(rpos(r)), wpos(w) - old(wpos(w))) && !rfail(r) ==> decErr == nil
+//@   ensures encErr == nil && decErr == nil && linked(w, r, old(wpos(w)), old(rpos(r)), wpos(w) - old(wpos(w))) ==>
+//@     y == x && rpos(r) - old(rpos(r)) == wpos(w) - old(wpos(w))
+
+//@ func verifRoundTripUint64
+//@   requires w != nil && r != nil && streaming()
+//@   modifies *
+//@   inlines Encode
+//@   ensures encErr == nil && linked(w, r, old(wpos(w)), old(rpos(r)), wpos(w) - old(wpos(w))) && !rfail(r) ==> decErr == nil
+//@   ensures encErr == nil && decErr == nil && linked(w, r, old(wpos(w)), old(rpos(r)), wpos(w) - old(wpos(w))) ==>
+//@     y == x && rpos(r) - old(rpos(r)) == wpos(w) - old(wpos(w))
+
+//@ func verifRoundTripTime
+//@   requires w != nil && r != nil && streaming()
+//@   modifies *
+//@   inlines Encode
+//@   ensures encErr == nil && linked(w, r, old(wpos(w)), old(rpos(r)), wpos(w) - old(wpos(w))) && !rfail(r) ==> decErr == nil
+//@   ensures encErr == nil && decErr == nil && linked(w, r, old(wpos(w)), old(rpos(r)), wpos(w) - old(wpos(w))) ==>
+//@     unixnano(y) == unixnano(x) && rpos(r) - old(rpos(r)) == wpos(w) - old(wpos(w))
+
+// Big integers: non-negative (the encoder panics on negative ones, documented); up to MaxBigIntLength bytes are accepted by both sides.
+//@ func verifRoundTripBigInt
+//@   requires w != nil && r != nil && x != nil && val(x) >= 0 && streaming()
+//@   modifies *
+//@   inlines Encode, (*BigInt).Decode
+//@   ensures encErr == nil && linked(w, r, old(wpos(w)), old(rpos(r)), wpos(w) - old(wpos(w))) && !rfail(r) ==> decErr == nil
+//@   ensures encErr == nil && decErr == nil && linked(w, r, old(wpos(w)), old(rpos(r)), wpos(w) - old(wpos(w))) ==>
+//@     y != nil && val(y) == val(x) && rpos(r) - old(rpos(r)) == wpos(w) - old(wpos(w))
+
+//@ func verifRoundTripBytes32
+//@   requires w != nil && r != nil && y != nil && streaming()
+//@   modifies *
+//@   inlines Encode
+//@   ensures encErr == nil && linked(w, r, old(wpos(w)), old(rpos(r)), wpos(w) - old(wpos(w))) && !rfail(r) ==> decErr == nil
+//@   ensures encErr == nil && decErr == nil && linked(w, r, old(wpos(w)), old(rpos(r)), wpos(w) - old(wpos(w))) ==>
+//@     *y == x && rpos(r) - old(rpos(r)) == wpos(w) - old(wpos(w))
+
+//@ func verifRoundTripByteSlice
+//@   requires w != nil && r != nil && streaming()
+//@   modifies *
+//@   inlines Encode
+//@   ensures encErr == nil && linked(w, r, old(wpos(w)), old(rpos(r)), wpos(w) - old(wpos(w))) && !rfail(r) ==> decErr == nil
+//@   ensures encErr == nil && decErr == nil && linked(w, r, old(wpos(w)), old(rpos(r)), wpos(w) - old(wpos(w))) ==>
+//@     len(y) == len(x) && (forall i int :: 0 <= i && i < len(x) ==> y[i] == x[i]) && rpos(r) - old(rpos(r)) == wpos(w) - old(wpos(w))
+
+// Strings: up to 65535 bytes on both sides.
+//@ func verifRoundTripString
+//@   requires w != nil && r != nil && streaming()
+//@   modifies *
+//@   inlines Encode
+//@   ensures encErr == nil && linked(w, r, old(wpos(w)), old(rpos(r)), wpos(w) - old(wpos(w))) && !rfail(r) ==> decErr == nil
+//@   ensures encErr == nil && decErr == nil && linked(w, r, old(wpos(w)), old(rpos(r)), wpos(w) - old(wpos(w))) ==>
+//@     y == x && rpos(r) - old(rpos(r)) == wpos(w) - old(wpos(w))
+
+//@ func verifRoundTripSequence
+//@   requires w != nil && r != nil && b != nil && val(b) >= 0 && streaming()
+//@   modifies *
+//@   inlines Encode, (*BigInt).Decode
+//@   ensures encErr == nil && linked(w, r, old(wpos(w)), old(rpos(r)), wpos(w) - old(wpos(w))) && !rfail(r) ==> decErr == nil
+//@   ensures encErr == nil && decErr == nil && linked(w, r, old(wpos(w)), old(rpos(r)), wpos(w) - old(wpos(w))) ==>
+//@     a2 == a && b2 != nil && val(b2) == val(b) && c2 == c && rpos(r) - old(rpos(r)) == wpos(w) - old(wpos(w))
+
+// Values with their own marshalling: a 16-bit length, then the marshalled bytes. The decoder hands the unmarshaler exactly the
+// bytes the marshaler returned (what the unmarshaler makes of them is the type's own contract) and has then consumed what was written.
+// Marshalled data longer than 65535 bytes makes the encoder panic (documented limit); time values are handled by their own case.
+//@ func verifRoundTripMarshaler
+//@   requires w != nil && r != nil && x != nil && y != nil && streaming() && marshalLen(x) <= 65535
+//@   requires !istype(x, "time.Time") && !istype(y, "*time.Time") && !unmarshalled(y)
+//@   modifies *
+//@   inlines Encode
+//@   callsite encoding.BinaryUnmarshaler.UnmarshalBinary : linked(w, r, old(wpos(w)), old(rpos(r)), wpos(w) - old(wpos(w))) ==>
+//@     len(arg0) == wpos(w) - old(wpos(w)) - 2 && rpos(r) - old(rpos(r)) == wpos(w) - old(wpos(w)) &&
+//@     (forall i int :: 0 <= i && i < len(arg0) ==> arg0[i] == wroteAt(w, old(wpos(w)) + 2 + i))
+//@   ensures encErr == nil && decErr == nil && linked(w, r, old(wpos(w)), old(rpos(r)), wpos(w) - old(wpos(w))) ==> rpos(r) - old(rpos(r)) == wpos(w) - old(wpos(w)) && unmarshalled(y)
